@@ -257,10 +257,18 @@ theorem compactBlocks_pts_ne {fs : List TFile} {b : Block} (h : b ∈ compactBlo
   obtain ⟨k, _, hb⟩ := List.mem_flatMap.mp h
   exact mkBlocks_pts_ne hb
 
+theorem Shard.Inv2_noteRead (s : Shard) (h : s.Inv2) : s.noteRead.Inv2 := by
+  unfold Shard.noteRead
+  split
+  · exact ⟨h.ptsNe, h.tombsWF, h.cacheIn, h.fileKeys⟩
+  · exact h
+
 theorem Shard.Inv2_flush (s : Shard) (h : s.Inv2) : s.flush.Inv2 := by
   unfold Shard.flush
   split
-  · exact h
+  · split
+    · exact ⟨h.ptsNe, h.tombsWF, h.cacheIn, h.fileKeys⟩
+    · exact h
   · refine ⟨?_, ?_, by simp, ?_⟩
     · intro f hf b hb
       rcases List.mem_append.mp hf with hf | hf
@@ -483,7 +491,7 @@ theorem step_Inv2 (st : State) (op : Op) (hi : st.src.Inv) (h : st.src.Inv2) : (
     · split <;> exact h
   | importA ids =>
     simp only [step]; split <;> exact h
-  | dump => exact h
+  | dump => exact Shard.Inv2_noteRead _ h
   | bigcase n imp => simp only [step]; split <;> exact h
 
 /-- **the side condition of the series clause holds along every run** -/
